@@ -25,6 +25,18 @@ CHECKS = {
         "deviating from every base in more than d fields outside the 4-field product are not reached.",
         "DESIGN.md 4/C01",
     ),
+    "C03": (
+        "exploration",
+        "bounded-exhaustive enumeration of ordered ACE pairs (deviation bound over 16 field "
+        "positions, complete alphabets incl. groups with members and empty port sets) x 5 skip "
+        "arguments, real shadow_of against an exact packet-set containment oracle",
+        "All ordered pairs within 2 (quick) / 3 (thorough) deviating field positions of two covering "
+        "base pairs, both platforms: library True must imply same action and exact containment "
+        "(unions of cubes decided by exact cover, 65536-bit port masks, flag masks), and answers "
+        "must be monotone in the skip set for every pair.",
+        "Trusted: refsem containment (self-tested against brute force); DESIGN section 3 packet model.",
+        "DESIGN.md 4/C03",
+    ),
     "C05": (
         "model_checking",
         "complete enumeration of wildcard masks per shape class against a bit-level oracle, plus "
@@ -64,6 +76,17 @@ CHECKS = {
         "splitter vocabulary and keyword collisions are checked for every module-level table.",
         "Trusted: golden name tables written by hand (cross-read against /etc/services); CPython.",
         "DESIGN.md 4/C09",
+    ),
+    "C11": (
+        "exploration",
+        "same pair enumeration as C03 restricted to group-free entries with non-empty port sets, "
+        "oracle is an equivalence for all skip arguments; every ordered list of <=3/4 distinct "
+        "entries of a 10-entry alphabet (plus lists with duplicates) for the ACL-level report",
+        "Exactness (no missed and no spurious shadow) for every enumerated pair and skip argument; "
+        "Acl.shading()/shadow_of() compared with the first-earlier-cover spec computed from the exact "
+        "relation for every enumerated ACL under three skip arguments.",
+        "Trusted: as C03. Lists with duplicate lines are compared at the level of line sets.",
+        "DESIGN.md 4/C11",
     ),
 }
 
